@@ -2047,3 +2047,13 @@ M("c09-counters-by-keyword-twin", "C09", "R3.counters-receive-the-configured-thr
   expect="silent", desc="benign twin: the same binding by keyword, in another order")
 M("c09-counters-store-crossed", "C09", "R3.counters-receive-the-configured-thresholds", "concurrency/models.py",
   "        self.total_tasks: int = total_tasks\n        self.min_successful: int = min_successful", "        self.total_tasks: int = min_successful\n        self.min_successful: int = total_tasks")
+
+
+def _track_replay_without_status_test(src):
+    i = src.index("                    if op.operation_type != OperationType.EXECUTION\n                    and op.status\n                    in {")
+    j = src.index("}", i)
+    return src[:i] + "                    if op.operation_type != OperationType.EXECUTION\n" + src[j + 1:]
+
+
+M2("c17-every-recorded-operation-counts-as-completed", "C17", "R6.boundary-on-small-histories", [{"file": "state.py", "fn": _track_replay_without_status_test}],
+   desc="mutscan 4: the status conjunct of the completed set dropped (used to end as exit 2: test not recognised)")
